@@ -213,21 +213,26 @@ func Dir() string {
 	return d
 }
 
+// loadKnown reads /verif/known_findings.json and, if present, the package's
+// own known_findings.json (cwd of a test binary is its package directory).
+// Both are committed files; nothing is ever written to them at run time.
 func loadKnown() {
 	known = map[string]KFEntry{}
-	b, err := os.ReadFile(filepath.Join(Root(), "known_findings.json"))
-	if err != nil {
-		return
-	}
-	var f struct {
-		Findings []KFEntry `json:"findings"`
-	}
-	if err := json.Unmarshal(b, &f); err != nil {
-		fmt.Printf("INFRA: known_findings.json unreadable: %v\n", err)
-		os.Exit(2)
-	}
-	for _, e := range f.Findings {
-		known[e.ID] = e
+	for _, path := range []string{filepath.Join(Root(), "known_findings.json"), "known_findings.json"} {
+		b, err := os.ReadFile(path)
+		if err != nil {
+			continue
+		}
+		var f struct {
+			Findings []KFEntry `json:"findings"`
+		}
+		if err := json.Unmarshal(b, &f); err != nil {
+			fmt.Printf("INFRA: %s unreadable: %v\n", path, err)
+			os.Exit(2)
+		}
+		for _, e := range f.Findings {
+			known[e.ID] = e
+		}
 	}
 }
 
@@ -598,6 +603,14 @@ func Check(t *testing.T, quickN, thoroughN int, prop func(rt *rapid.T, c *Case))
 	part.Tests[name] = ts
 	mu.Unlock()
 
+	for _, l := range tb.logs {
+		if strings.HasPrefix(l, "[rapid] only generated") {
+			// generator health problem, not a violation of the property
+			fmt.Printf("INFRA: %s: %s\n", name, l)
+			t.Fail()
+			return
+		}
+	}
 	if !tb.Failed() {
 		for _, l := range tb.logs {
 			if strings.HasPrefix(l, "[rapid] OK") {
